@@ -58,7 +58,7 @@ func runC02(cfg Config, r *Result) {
 		return
 	}
 	for _, c := range c02Risky {
-		o := SubRun(c.src, 6*time.Second)
+		o := SubRun(c.src, 30*time.Second)
 		r.Evaluations++
 		r.Dist("risky:" + o.Class)
 		if c02Bad(o.Class) {
